@@ -1020,6 +1020,29 @@ func (s *MemStore) Set(key []byte, data []byte, ttl time.Duration) error {
 		return errInjected
 	}
 	s.data[k] = append([]byte{}, data...)
+	// what was persisted under this key: does it decode, and which version does it hold
+	gid := sched.Gid()
+	ok, ver := true, 0
+	func() {
+		defer func() {
+			if recover() != nil {
+				ok = false
+			}
+		}()
+		e := cache.NewHTTPStoreCache(key, nil)
+		if err := e.FromBytes(s.data[k]); err != nil {
+			ok = false
+			return
+		}
+		if st, good := cache.VerifEntry(e); good {
+			ver = respVer(st.Response)
+		}
+	}()
+	s.w.mu.Lock()
+	if !s.w.dead[gid] {
+		s.w.emitLocked(Event{"op": "Persisted", "k": s.w.kname(k), "v": ver, "ok": ok})
+	}
+	s.w.mu.Unlock()
 	return nil
 }
 
